@@ -15,7 +15,7 @@ PROPS = {
    assumptions=["this is generated-input checking carried by the simulator; the simulation-specific parts are delivery order/stage interleaving and refusal atomicity under reorg", "header-level rules enforced only by HeaderVerifier (timestamp vs median / future bound, PoW) are not exercised: the simulator delivers straight to the chain service as `ckb import`/orphan release do", "uncle rules are covered by three mutants (sibling as uncle, duplicate uncle, uncle already included / on the main chain) and the two-phase commit by one (commit of a never-proposed transaction); uncle epoch/target, proposal-limit and too-early/too-late commit mutants are not in the set"]),
  "C06": dict(level="exploration", quick=700, thorough=40000,
    rule="one evaluation = one simulated run with random fees, proposer/committer assignments across blocks and uncles, re-proposals inside the window, epoch boundaries with remainder rewards and halvings; the model computes every cellbase reward (primary + secondary*U/C + committer shares + first-proposer shares) and DAO field from the property text; the node must accept every such block when it is on the heaviest chain and reject reward/DAO mutants; at the end header U == occupied capacity of the live cells actually stored and every main-chain cellbase equals the property-text reward. non-trivial as C01",
-   assumptions=["DAO deposit/withdraw transactions are not generated (no DAO script cell in the simulated genesis): the withdrawal-interest clause is not exercised", "blocks come from the model's builder only; the node's own block assembler is exercised by C13"]),
+   assumptions=["NervosDAO deposits, phase-1 and phase-2 withdrawals are generated against a genesis DAO cell whose code is always_success: the node-side accounting (maximum withdraw from the two accumulated rates, fee of the withdrawal, S decreasing by the interest, occupied capacity of the 8 data bytes) is exercised and checked against the model; the on-chain NervosDAO script (since lock period, capacity equality in phase 1) is not", "blocks come from the model's builder only; the node's own block assembler is exercised by C13"]),
  "C19": dict(level="exploration", quick=600, thorough=30000,
    rule="one evaluation = one simulated run; (roots) every block's extension carries the chain root computed by a from-scratch MMR (own merge rule per RFC 0044) over its ancestors, so acceptance by the node's BlockExtensionVerifier is an equality check on every fork; after every reorganisation and restart the node's Snapshot::chain_root_mmr(tip-1/tip).get_root() must equal the naive root; wrong/short/missing root mutants must be rejected. (proofs) at every quiescent point and after every restart, for three seeded (last block L, 1-6 ancestor positions) requests, the parent chain root and proof items produced from the stored MMR exactly as the light-client server's reply_proof does (chain_root_mmr(L-1).get_root / gen_proof) are rebuilt into a proof the way a client does (mmr size from L) and must verify against the MODEL's root and header digests, must not verify a header of another block at one of the positions, and must not verify against the root of another prefix. (filters) the block-filter builder runs as explicit passes at arbitrary moments (lagging behind by blocks, reorganisations and restarts; real BlockFilter::build_filter_data through a verif hook); after every pass every main-chain block must have a filter that matches each lock and type script hash of its outputs and spent inputs (inputs resolved through the model), whose bytes equal the encoding of exactly that set, and whose filter hash equals blake2b(parent filter hash || blake2b(filter)) from a zero hash at genesis; the latest-built mark must be the tip. non-trivial as C01",
    assumptions=["the light-client protocol handler itself (message parsing, sampling of positions for GetLastStateProof, missing-item handling) is not driven here: the proof is produced by the same store calls the handler makes; its robustness against malformed requests is covered by C16's handler part", "the golomb-coded-set and ckb-merkle-mountain-range crates' encode/verify routines are used by the oracle with model-derived inputs (elements, root, leaves)", "a reorganisation racing with a builder pass (the builder reads the live store while holding an older snapshot) is not simulated: passes are atomic steps"]),
